@@ -4,13 +4,15 @@ import sys
 sys.path.insert(0, os.path.join(os.path.dirname(os.path.abspath(__file__)), '..', 'shared'))
 import output_proofs  # noqa: E402
 import tokenizer_proofs  # noqa: E402
+import outtext_proofs  # noqa: E402
 NEED_OPTIONS = True
-PROOFS = output_proofs.select(['add_text_ignored']) + tokenizer_proofs.select(['tok_layout', 'parse_off_newlines', 'parse_newline'])
+PROOFS = output_proofs.select(['add_text_ignored']) + tokenizer_proofs.select(['tok_layout', 'parse_off_newlines', 'parse_newline']) + [outtext_proofs.iteration_proof()]
 EXPLANATION = ('Kernel of C07: add_text(text, is_ignored=true) hands text[0..n) to write_char unchanged and in order and touches neither cpd.column, cpd.spaces nor '
                'cpd.last_char (frame); the blank-line path of parse_ignored (parse_off_newlines) consumes only blanks and terminators and reports their exact count.')
-K = ['K2 add_text(is_ignored): raw emission, frame excludes column logic', 'K1b parse_off_newlines: only blanks/terminators consumed, nl_count exact']
+K = ['K2 add_text(is_ignored): raw emission, frame excludes column logic', 'K1b parse_off_newlines: only blanks/terminators consumed, nl_count exact',
+     'K3 output_text (one iteration of the chunk loop): a CT_IGNORED / CT_JUNK chunk is written by exactly one add_text(str, is_ignored=true) and nothing else (no output_to_column, no add_char, column/pending blanks/line state untouched)']
 G = ['parse_ignored line path (pc.str == data[old idx .. new idx), no CR/LF inside): not yet under contract',
-     'output_text routes CT_IGNORED/CT_JUNK chunks to add_text(…, true) only', 'parse_next tries parse_ignored first while cpd.unc_off',
+     'parse_next tries parse_ignored first while cpd.unc_off',
      'no later pass edits or deletes CT_IGNORED chunks or inserts chunks between them (the two defects quoted in the property live there and are not in this kernel)',
      'write_char encodes each code point exactly (C09)']
 MACRO_HEADERS = ['output_macros.h', 'tokenizer_macros.h']
@@ -18,3 +20,7 @@ MACRO_HEADERS = ['output_macros.h', 'tokenizer_macros.h']
 sys.path.insert(0, os.path.join(os.path.dirname(os.path.abspath(__file__)), '..', '..', 'tools'))
 import replay_lib  # noqa: E402
 REPLAY = replay_lib.make_replay(replay_lib.scenario_ignored_region)
+
+
+def static_facts(repo):
+    return outtext_proofs.static_facts(repo)
